@@ -218,6 +218,11 @@ def limit_cases(rng):
             c.append(([], free + b'\x61' * n))
             c.append(([], b'\x00\x63' + free + b'\x68' + b'\x61' * (n - 2) + b'\x51'))
         c.append(([], b'\x4f\x00' + b''.join(push(b'k') for _ in range(20)) + b'\x01\x14\xae' + b'\x61' * (n - 21)))
+    # opcodes without a name-table entry (0xba..0xff) exactly at / over the operation limit, executed and not
+    for opc in (0xba, 0xbb, 0xc0, 0xf9, 0xfa, 0xfc, 0xfd, 0xff, 0x50, 0x62, 0x89):
+        for n in (200, 201):
+            c.append(([], b'\x51' + b'\x61' * n + bytes([opc])))
+            c.append(([], b'\x00\x63' + b'\x61' * (n - 2) + bytes([opc]) + b'\x68\x51'))
     # hash opcodes on items whose length sits at the padding boundaries of the compression functions
     for n in (0, 1, 54, 55, 56, 57, 63, 64, 65, 118, 119, 120, 128, 183, 247, 311, 503, 520):
         for h in HASH_OPS:
